@@ -279,8 +279,11 @@ void file_server::normalize_path(std::string &path)
 				out --;
 			while(out > min_pos) {
 				out --;
-				if(*out == '/')
+				if(*out == '/') {
+					// stay behind the separator of the parent, the next segment is appended there
+					out ++;
 					break;
+				}
 			}
 		}
 		else {
